@@ -3634,10 +3634,12 @@ sexp sexp_read_raw (sexp ctx, sexp in, sexp *shares) {
     case '5': case '6': case '7': case '8': case '9':
       c2 = digit_value(c1);
       while (isdigit(c1=sexp_read_char(ctx, in)))
-        c2 = c2 * 10 + digit_value(c1);
+        if (c2 < 100000000)     /* larger labels are unknown / out of order anyway */
+          c2 = c2 * 10 + digit_value(c1);
       tmp = sexp_make_fixnum(c2);
       if (c1 == '#') {
         if (!sexp_vectorp(*shares) ||
+            c2 >= (int)sexp_vector_length(*shares)-1 ||
             tmp > sexp_vector_data(*shares)[sexp_vector_length(*shares)-1] ||
             sexp_vector_data(*shares)[c2] == SEXP_VOID) {
           res = sexp_read_error(ctx, "unknown reader label", tmp, in);
@@ -3657,6 +3659,8 @@ sexp sexp_read_raw (sexp ctx, sexp in, sexp *shares) {
           if (c2 + 1 >= (int)sexp_vector_length(*shares)) {
             tmp2 = sexp_make_vector(ctx, sexp_make_fixnum(sexp_vector_length(*shares)*2), SEXP_VOID);
             memcpy(sexp_vector_data(tmp2), sexp_vector_data(*shares), (sexp_vector_length(*shares)-1)*sizeof(sexp));
+            /* the last slot holds the largest label seen so far */
+            sexp_vector_data(tmp2)[sexp_vector_length(tmp2)-1] = sexp_vector_data(*shares)[sexp_vector_length(*shares)-1];
             *shares = tmp2;
           }
           sexp_vector_data(*shares)[c2] = sexp_make_reader_label(c2);
